@@ -244,6 +244,10 @@ def c01(chk):
     chk.proofs(["Midi.Props.C01"])
     chk.translated(['TShort', 'TStruct', 'TBits'])
     msg_exhaustive(chk, C01_CELLS, mask="c01")
+    # the byte-triple shorthand of test_util is one more way to create a message from (status, data1, data2)
+    exe_t = chk.cargo_build("std")
+    if exe_t is not None:
+        lines_run(chk, exe_t, ["tu-lines"], "tu-short", only=r"tu short ")
     # the serde configuration: a value that enters through Deserialize is "created" / "constructed" too
     exe_s = chk.cargo_build("with_serde")
     if exe_s is not None:
@@ -495,6 +499,8 @@ def c09(chk):
     run_corpus(chk, exe)
     lines_run(chk, exe, ["encpn-lines"], "encpn")
     sample_from(chk, "encpn", 3)
+    # the test_util shorthands that construct (N)RPN / 14-bit CC messages are construction entry points too
+    lines_run(chk, exe, ["tu-lines"], "tu-pn", only=r"tu2 (nrpn|rpn|control_change_14)")
     # the named controller-number constants the encoder is documented with (spec: the MIDI 1.0 numbers, by name)
     lines_run(chk, exe, ["cnpred-lines"], "cnconst", only=r"cnconst ")
     # the serde configuration: a value that enters through Deserialize is "created" / "constructed" too
